@@ -2,6 +2,7 @@ package props
 
 import (
 	"fmt"
+	"sync"
 	"testing"
 	"time"
 
@@ -20,6 +21,7 @@ type c09Case struct {
 	Batch    int      `json:"batch"`
 	Requests []genReq `json:"requests"`
 	Canary   genReq   `json:"canary"`
+	Trio     []genReq `json:"trio,omitempty"` // three different valid batches sent overlapping (0, 30, 40 ms) before the canary
 }
 
 var c09servers = map[string]*testServer{}
@@ -58,6 +60,12 @@ func genC09(mode string) func(t *rapid.T) c09Case {
 				}
 			}
 		}
+		if rapid.IntRange(0, 2).Draw(t, "trio") == 0 {
+			for j := 0; j < 3; j++ {
+				tm := genValidParams(t, mode, c.Depth, c.Batch)
+				c.Trio = append(c.Trio, genReq{Method: "POST", Body: tm.writeDoc(styleHexLower), Class: "valid:overlapping", Expect: "valid", Hash: tm.InputHash})
+			}
+		}
 		m := genValidParams(t, mode, c.Depth, c.Batch)
 		c.Canary = genReq{Method: "POST", Body: m.writeDoc(styleHexLower), Class: "canary", Expect: "valid", Hash: m.InputHash}
 		return c
@@ -74,6 +82,28 @@ func runC09(c c09Case) Result {
 	limit := timeLimit{180 * time.Second} // far above 50x the measured prove time (0.35-1 s), so that machine load cannot fail it
 	tags := []string{}
 	classes := map[string]bool{}
+	if len(c.Trio) > 0 {
+		// "every request": the same oracle when requests overlap on the one server
+		results := make([]httpResult, len(c.Trio))
+		var wg sync.WaitGroup
+		for i := range c.Trio {
+			wg.Add(1)
+			go func(i int) {
+				defer wg.Done()
+				if i > 0 {
+					time.Sleep(time.Duration(20+10*i) * time.Millisecond)
+				}
+				results[i] = ts.doReq(c.Trio[i])
+			}(i)
+		}
+		wg.Wait()
+		for i, r := range c.Trio {
+			tags = append(tags, "req:"+r.Class)
+			if sig, msg := checkResponse(ts, r, results[i], limit); sig != "" {
+				return bad(c.Mode+"/overlapping", "overlapping:"+sig, "overlapping request %d of 3 (%s mode): %s", i+1, c.Mode, msg)
+			}
+		}
+	}
 	for i, r := range append(append([]genReq(nil), c.Requests...), c.Canary) {
 		res := ts.doReq(r)
 		tags = append(tags, "req:"+r.Class, fmt.Sprintf("status:%d", res.Status))
